@@ -39,7 +39,8 @@ impl Out {
         if self.samples.len() < 3 || (self.n_cases % 97 == 0 && self.samples.len() < 8) {
             let mut s = line.clone();
             if s.len() > 600 {
-                s.truncate(s.char_indices().take_while(|(i, _)| *i < 600).count());
+                let cut = s.char_indices().map(|(i, _)| i).take_while(|i| *i <= 600).last().unwrap_or(0);
+                s.truncate(cut);
                 s.push_str("…");
             }
             self.samples.push(s);
